@@ -61,6 +61,12 @@ var c02Routes = []string{
 	"{% set y = st %}{{ y }}",
 	"{% macro m(p) %}{{ p }}{% endmacro %}{{ m(st) }}",
 	"{% for i in sts %}{{ i }}{% endfor %}{{ sts|first }}{{ sts|join:\",\" }}",
+	// tainted text as a parameter of the filter TAG (its result is written without further escaping)
+	"{% filter default:x %}{% endfilter %}",
+	"{% filter add:x %}a{% endfilter %}",
+	"{% filter lower|add:x|upper %}a{% endfilter %}",
+	"{% filter join:x %}ab{% endfilter %}",
+	"{% with p=x %}{% filter add:p %}a{% endfilter %}{% endwith %}",
 	// tainted text combined with already-safe markup (a macro result is marked safe)
 	"{% macro b() %}* {% endmacro %}{{ b() + x }}",
 	"{% macro b() %}* {% endmacro %}{{ x + b() }}",
